@@ -112,6 +112,27 @@ def run_case(ctx, rng, job):
             if key(x) == key(y) or (x < y) == (y < x) or (x < y) != (key(x) < key(y)) or x == y:
                 ctx.violation('super-specifications-not-strictly-ordered', {'a': list(key(x)), 'b': list(key(y)),
                                                                             'a<b': x < y, 'b<a': y < x})
+    # classes that compare (and hash) equal through their metaclass although they are different classes with different
+    # names: each specification is ordered by its own class's name
+    class ValueMeta(type):
+        def __eq__(cls, other):
+            return isinstance(other, ValueMeta)
+
+        def __hash__(cls):
+            return 17
+    vm = [ValueMeta(nm_, (), {}) for nm_ in rng.sample(['VA', 'VB', 'VC'], 3)]
+    for c_ in vm:
+        c_.__module__ = 'm'
+    vspecs = [implementedBy(c_) for c_ in vm]
+    for c_, sp in zip(vm, vspecs):
+        ctx.ev()
+        ctx.count('value_equal_classes')
+        if not str(sp.__name__).endswith(c_.__name__):
+            ctx.violation('specification-key-of-another-class', {'class': c_.__name__, 'key': list(key(sp))})
+    for x in vspecs:
+        for y in vspecs:
+            if x is not y and ((x < y) == (y < x) or (x < y) != (key(x) < key(y))):
+                ctx.violation('value-equal-classes-not-ordered-by-name', {'a': list(key(x)), 'b': list(key(y))})
     classes = []
     for _ in range(rng.randint(2, 4)):
         c = type(rng.choice(['A', 'B', 'Z', 'K']), (), {})
